@@ -52,7 +52,8 @@ where
         where
             A: serde::de::SeqAccess<'d>,
         {
-            let mut array = Vec::with_capacity(seq.size_hint().unwrap_or_default());
+            // the size hint comes from the (untrusted) input: never trust it for more than a page
+            let mut array = Vec::with_capacity(seq.size_hint().unwrap_or_default().min(4096));
             while let Some(elem) = seq.next_element::<PossiblyUnknown<T>>()? {
                 if let PossiblyUnknown::Some(elem) = elem {
                     array.push(elem)
